@@ -372,7 +372,7 @@ func (f *Func) siblingFacts(list []ast.Stmt, child ast.Node, assigned map[string
 				}
 			}
 		}
-		assignedPaths(info, s, local)
+		f.assignedReaching(s, local)
 	}
 	for k := range local {
 		assigned[k] = true
@@ -453,4 +453,30 @@ func IsConstNamed(info *types.Info, name string) func(ast.Expr) bool {
 // IsIntConst matches any constant expression with the given value.
 func IsIntConst(info *types.Info, v int64) func(ast.Expr) bool {
 	return func(e ast.Expr) bool { c, ok := ConstInt(info, e); return ok && c == v }
+}
+
+// assignedReaching collects assignments of s that can be followed by the next
+// statement of the list: branches that terminate are skipped.
+func (f *Func) assignedReaching(s ast.Stmt, out map[string]bool) {
+	info := f.Info()
+	switch x := s.(type) {
+	case *ast.IfStmt:
+		if x.Init != nil {
+			assignedPaths(info, x.Init, out)
+		}
+		if !f.Terminates(x.Body) {
+			for _, st := range x.Body.List {
+				f.assignedReaching(st, out)
+			}
+		}
+		if x.Else != nil && !f.Terminates(x.Else) {
+			f.assignedReaching(x.Else, out)
+		}
+	case *ast.BlockStmt:
+		for _, st := range x.List {
+			f.assignedReaching(st, out)
+		}
+	default:
+		assignedPaths(info, s, out)
+	}
 }
